@@ -14,6 +14,15 @@
 //!   ttl   SET k v PX 40 | PX 60000 | no deadline, a pause of 90 ms (real time: the handler is wired to
 //!         ProductionTimeSource) between two reads, then plain GETs / SETs of the key (fast path or
 //!         batch): judged by O1 O2 O5 O6 and by the model (the mini backend has a clock)
+//!   rbuf  read_buffer_size 16 / 64 / 128 / 256 / 8192 and a stream whose total length (or whose last
+//!         chunk) is exactly k x read_buffer_size, or that +- 1; the stream is delivered in reads of at most
+//!         read_buffer_size bytes and then STAYS OPEN AND SILENT (the client waits for its replies): the
+//!         run ends when the handler is back in `read` with nothing to read; missing replies = O2/O3/O5
+//!   pool  2 .. 33 connections, one after the other, sharing ONE BufferPoolAsync of 2 / 4 / 8 / 64 buffers
+//!         (as all connections of a server do); the first ends badly - EOF in the middle of a frame (for
+//!         short streams: at EVERY cut), the peer closing before / while the reply is written (write
+//!         error), a read error - or cleanly; fillers end cleanly; the LAST connection (the one that pops
+//!         the first one's buffers) is judged: same bytes at the same reads as alone on a fresh pool
 //!   bulk  a few SETs / LPUSHes of 1-4 KB values, then a deep pipeline of GET / LRANGE / ECHO (/ MGET)
 //!         whose replies total more than 64, 128 or 256 KiB, fed in one read or in two or three large
 //!         reads: judged by the direct oracles O1 O2 O3 O5; one in two of the 64 KiB cases without
@@ -183,6 +192,154 @@ fn run_timed(env: &Env, shards: usize, cfg: (usize, usize), reads: &[(u64, Vec<u
             }
             Ran::Ok(w, cum)
         }
+    }
+}
+
+// ---------------------------------------------------------------- faults, shared pools, waiting clients
+#[derive(Clone)]
+enum FItem {
+    Chunk(Vec<u8>),
+    ReadErr, // the read fails (connection reset)
+}
+/// scripted stream: a chunk longer than the handler's read buffer is delivered in several reads;
+/// after the script either EOF or - `hold_open` - the stream stays open and silent (sets `idle`);
+/// `write_limit` = number of reply bytes the peer accepts before its side is closed (write error)
+struct FaultStream {
+    items: std::collections::VecDeque<FItem>,
+    hold_open: bool,
+    idle: Arc<std::sync::atomic::AtomicBool>,
+    write_limit: Option<usize>,
+    accepted: usize,
+    written: Arc<std::sync::Mutex<Vec<u8>>>,
+    marks: Arc<std::sync::Mutex<Vec<(usize, usize)>>>,
+    reads: usize,
+}
+impl AsyncRead for FaultStream {
+    fn poll_read(mut self: Pin<&mut Self>, _cx: &mut Context<'_>, buf: &mut ReadBuf<'_>) -> Poll<std::io::Result<()>> {
+        match self.items.pop_front() {
+            None => {
+                if self.hold_open {
+                    self.idle.store(true, std::sync::atomic::Ordering::SeqCst);
+                    Poll::Pending
+                } else {
+                    Poll::Ready(Ok(()))
+                }
+            }
+            Some(FItem::ReadErr) => Poll::Ready(Err(std::io::Error::new(std::io::ErrorKind::ConnectionReset, "scripted read error"))),
+            Some(FItem::Chunk(mut c)) => {
+                let n = c.len().min(buf.remaining());
+                buf.put_slice(&c[..n]);
+                if n < c.len() {
+                    let rest = c.split_off(n);
+                    self.items.push_front(FItem::Chunk(rest));
+                }
+                self.reads += 1;
+                Poll::Ready(Ok(()))
+            }
+        }
+    }
+}
+impl AsyncWrite for FaultStream {
+    fn poll_write(mut self: Pin<&mut Self>, _cx: &mut Context<'_>, data: &[u8]) -> Poll<std::io::Result<usize>> {
+        let n = match self.write_limit {
+            Some(lim) => {
+                if self.accepted >= lim {
+                    return Poll::Ready(Err(std::io::Error::new(std::io::ErrorKind::BrokenPipe, "scripted: peer closed")));
+                }
+                data.len().min(lim - self.accepted)
+            }
+            None => data.len(),
+        };
+        self.accepted += n;
+        let reads = self.reads;
+        let mut w = self.written.lock().unwrap();
+        w.extend_from_slice(&data[..n]);
+        self.marks.lock().unwrap().push((reads, w.len()));
+        Poll::Ready(Ok(n))
+    }
+    fn poll_flush(self: Pin<&mut Self>, _cx: &mut Context<'_>) -> Poll<std::io::Result<()>> {
+        Poll::Ready(Ok(()))
+    }
+    fn poll_shutdown(self: Pin<&mut Self>, _cx: &mut Context<'_>) -> Poll<std::io::Result<()>> {
+        Poll::Ready(Ok(()))
+    }
+}
+
+#[derive(Clone)]
+struct ConnSpec {
+    shards: usize,
+    cfg: (usize, usize),
+    rbs: usize, // read_buffer_size
+    items: Vec<FItem>,
+    hold_open: bool,
+    write_limit: Option<usize>,
+}
+/// the reads the handler gets for these items with this read buffer
+fn pieces(items: &[FItem], rbs: usize) -> Vec<Vec<u8>> {
+    let mut v = Vec::new();
+    for it in items {
+        if let FItem::Chunk(c) = it {
+            for p in c.chunks(rbs) {
+                v.push(p.to_vec());
+            }
+        }
+    }
+    v
+}
+/// the connections one after the other, each on a fresh backend, all on ONE buffer pool of `pool_size`
+fn run_seq(env: &Env, pool_size: usize, conns: &[ConnSpec]) -> Vec<Ran> {
+    let r = catch_unwind(AssertUnwindSafe(|| {
+        env.rt.block_on(async {
+            let pool = Arc::new(redis_sim::production::BufferPoolAsync::new(pool_size, 8192));
+            let mut res = Vec::new();
+            for (ci, sp) in conns.iter().enumerate() {
+                let state = ShardedActorState::with_shards(sp.shards);
+                let written = Arc::new(std::sync::Mutex::new(Vec::new()));
+                let marks = Arc::new(std::sync::Mutex::new(Vec::new()));
+                let idle = Arc::new(std::sync::atomic::AtomicBool::new(false));
+                let stream = FaultStream { items: sp.items.iter().cloned().collect(), hold_open: sp.hold_open, idle: idle.clone(), write_limit: sp.write_limit, accepted: 0, written: written.clone(), marks: marks.clone(), reads: 0 };
+                let acl = Arc::new(parking_lot::RwLock::new(AclManager::new()));
+                let config = ConnectionConfig { max_buffer_size: MAXBUF, read_buffer_size: sp.rbs, min_pipeline_buffer: sp.cfg.0, batch_threshold: sp.cfg.1 };
+                let h = OptimizedConnectionHandler::new(stream, state, format!("verif:{}", ci), pool.clone(), env.metrics.clone(), config, acl, None);
+                let wait_idle = async {
+                    loop {
+                        tokio::task::yield_now().await;
+                        if idle.load(std::sync::atomic::Ordering::SeqCst) {
+                            break;
+                        }
+                    }
+                };
+                let done = tokio::time::timeout(std::time::Duration::from_secs(5), async {
+                    tokio::select! {
+                        _ = h.run() => {}
+                        _ = wait_idle => {}
+                    }
+                })
+                .await
+                .is_ok();
+                if !done {
+                    res.push(Ran::Hang);
+                    continue;
+                }
+                let w = written.lock().unwrap().clone();
+                let m = marks.lock().unwrap().clone();
+                let nreads = pieces(&sp.items, sp.rbs).len();
+                let mut cum = vec![0usize; nreads];
+                for (reads, total) in m {
+                    if reads >= 1 && reads <= nreads {
+                        for c in cum.iter_mut().skip(reads - 1) {
+                            *c = (*c).max(total);
+                        }
+                    }
+                }
+                res.push(Ran::Ok(w, cum));
+            }
+            res
+        })
+    }));
+    match r {
+        Ok(v) => v,
+        Err(e) => vec![Ran::Panic(e.downcast_ref::<String>().cloned().or_else(|| e.downcast_ref::<&str>().map(|s| s.to_string())).unwrap_or_default())],
     }
 }
 
@@ -581,6 +738,193 @@ fn main() {
         let mut rng = case_rng(args.seed, i);
         let shards = if rng.gen_bool(0.5) { 1 } else { 4 };
         let cfg = CFGS[rng.gen_range(0..CFGS.len())];
+        if i % 40 == 23 {
+            // ---- class rbuf: small / default read buffers, totals that are exact multiples, a client that waits
+            out.count("kind:rbuf");
+            out.count(&format!("cfg:{}/{}", cfg.0, cfg.1));
+            out.count(&format!("shards:{}", shards));
+            let rbs = *[16usize, 64, 128, 256, 8192].choose(&mut rng).unwrap();
+            out.count(&format!("rbuf:read_buffer_size:{}", rbs));
+            let mut frames: Vec<(String, Vec<u8>)> = Vec::new();
+            let mut im = false;
+            for _ in 0..rng.gen_range(1..8) {
+                frames.push(gen_cmd(&env, &mut rng, &mut im, 1));
+            }
+            // a last command padded so that the total is k * rbs (+ 0, + 1, - 1)
+            let delta = *[0usize, 0, 0, 1, rbs - 1].choose(&mut rng).unwrap();
+            out.count(&format!("rbuf:total_mod_rbs:{}", if delta == 0 { "0 (exact multiple)" } else if delta == 1 { "+1" } else { "-1" }));
+            let base: usize = frames.iter().map(|f| f.1.len()).sum();
+            let mut padded = None;
+            for l in 0..(3 * rbs + 40) {
+                let f = enc(&[b"ECHO", &vec![b'p'; l]]);
+                if (base + f.len()) % rbs == delta {
+                    padded = Some(f);
+                    break;
+                }
+            }
+            frames.push(("echo-pad".into(), padded.expect("pad length exists")));
+            let bytes: Vec<u8> = frames.iter().flat_map(|f| f.1.clone()).collect();
+            let l = bytes.len();
+            // delivery: one piece; or cut at multiples of rbs (every chunk ends on a full read); or cut anywhere
+            let chunks: Vec<Vec<u8>> = match rng.gen_range(0..10) {
+                0..=4 => vec![bytes.clone()],
+                5..=7 => {
+                    let k = l / rbs;
+                    let mut cs: Vec<usize> = (0..rng.gen_range(1..3)).map(|_| rng.gen_range(0..=k) * rbs).collect();
+                    cs.sort();
+                    cs.dedup();
+                    cut(&bytes, &cs)
+                }
+                _ => {
+                    let mut cs: Vec<usize> = (0..rng.gen_range(1..3)).map(|_| rng.gen_range(0..=l)).collect();
+                    cs.sort();
+                    cut(&bytes, &cs)
+                }
+            };
+            let chunks: Vec<Vec<u8>> = chunks.into_iter().filter(|c| !c.is_empty()).collect();
+            let last_full = chunks.last().map(|c| c.len() % rbs == 0).unwrap_or(false);
+            if last_full {
+                out.count("rbuf:last_read_exactly_full");
+            }
+            let waits = rng.gen_range(0..5) != 0;
+            out.count(if waits { "rbuf:client_waits_after_last_chunk" } else { "rbuf:eof_after_last_chunk" });
+            let items: Vec<FItem> = chunks.iter().map(|c| FItem::Chunk(c.clone())).collect();
+            let reads = pieces(&items, rbs);
+            let ref_chunks: Vec<Vec<u8>> = frames.iter().map(|f| f.1.clone()).collect();
+            let reference = run(&env, shards, (1_000_000_000, 2), &ref_chunks);
+            let got = run_seq(&env, 2, &[ConnSpec { shards, cfg, rbs, items, hold_open: waits, write_limit: None }]).remove(0);
+            out.impl_checks += 2;
+            let d = |got: &Ran| json!({"config": [cfg.0, cfg.1], "shards": shards, "read_buffer_size": rbs, "chunk_lengths": chunks.iter().map(|c| c.len()).collect::<Vec<_>>(), "client_waits": waits, "commands": frames.len(), "labels": frames.iter().map(|f| f.0.clone()).collect::<Vec<_>>(), "got": format!("{:?}", got).chars().take(400).collect::<String>(), "stream": if bytes.len() <= 600 { hex(&bytes) } else { format!("{}...({} bytes)", hex(&bytes[..600]), bytes.len()) }});
+            let (w, cum, dead) = match &got {
+                Ran::Ok(w, c) => (w.clone(), c.clone(), false),
+                _ => {
+                    out.violation(i, "O1: the handler panicked or hung (class rbuf)", d(&got));
+                    (Vec::new(), Vec::new(), true)
+                }
+            };
+            if let (false, Ran::Ok(ref_out, ref_cum)) = (dead, &reference) {
+                if w != *ref_out {
+                    let n = replies(&w).map(|r| r.len());
+                    let what = if w.len() < ref_out.len() && ref_out.starts_with(&w) { "O2: replies are missing although every command has been received in full and the client is waiting (class rbuf)" } else { "O3: output differs from the one-command-per-read reference (class rbuf)" };
+                    out.violation(i, what, json!({"replies_received": n, "bytes_received": w.len(), "bytes_expected": ref_out.len(), "case": d(&got)}));
+                } else {
+                    let mut fed = 0usize;
+                    let mut ends = Vec::new();
+                    let mut p = 0;
+                    for f in &frames {
+                        p += f.1.len();
+                        ends.push(p);
+                    }
+                    for (ri, c) in reads.iter().enumerate() {
+                        fed += c.len();
+                        let done = ends.iter().filter(|&&e| e <= fed).count();
+                        let want = if done == 0 { 0 } else { ref_cum[done - 1] };
+                        if cum[ri] != want {
+                            out.violation(i, "O5: a reply was not written by the read that completed its command (class rbuf)", json!({"read_index": ri, "written_after_it": cum[ri], "expected": want, "case": d(&got)}));
+                            break;
+                        }
+                    }
+                }
+            }
+            let term = if bytes.len() > 3000 {
+                let pcs = |b: &Vec<u8>| clist(b.chunks(2000), |p| chex(p));
+                format!("(KSegL {} {} {} {} {})", cfg_term(cfg), clist(reads.iter(), |c| pcs(c)), clist(cum.iter(), |c| c.to_string()), pcs(&w), cbool(dead))
+            } else {
+                format!("(KSeg {} {} {} {} {})", cfg_term(cfg), clist(reads.iter(), |c| chex(c)), clist(cum.iter(), |c| c.to_string()), chex(&w), cbool(dead))
+            };
+            out.case(i, term, true, &format!("rbuf{:?}{}{}{}{}", cfg, shards, rbs, hex(&bytes), hex(&w)));
+            if args.only.is_some() {
+                println!("class rbuf\n{}", serde_json::to_string_pretty(&d(&got)).unwrap());
+                println!("output {:?}", String::from_utf8_lossy(&w).chars().take(600).collect::<String>());
+            }
+            continue;
+        }
+        if i % 40 == 31 {
+            // ---- class pool: connections one after the other on one buffer pool; the first one ends badly
+            out.count("kind:pool");
+            out.count(&format!("cfg:{}/{}", cfg.0, cfg.1));
+            out.count(&format!("shards:{}", shards));
+            let pool_size = *[2usize, 2, 4, 8, 64].choose(&mut rng).unwrap();
+            out.count(&format!("pool:buffers:{}", pool_size));
+            let mut im = false;
+            let mut first: Vec<(String, Vec<u8>)> = Vec::new();
+            for _ in 0..rng.gen_range(1..4) {
+                first.push(gen_cmd(&env, &mut rng, &mut im, 1));
+            }
+            let fbytes: Vec<u8> = first.iter().flat_map(|f| f.1.clone()).collect();
+            let mut vim = false;
+            let mut victim: Vec<(String, Vec<u8>)> = Vec::new();
+            for _ in 0..rng.gen_range(1..4) {
+                victim.push(match rng.gen_range(0..4) { 0 => ("ping".into(), enc(&[b"PING"])), 1 => ("get-missing".into(), enc(&[b"GET", b"nosuchkey"])), _ => gen_cmd(&env, &mut rng, &mut vim, 1) });
+            }
+            let vbytes: Vec<u8> = victim.iter().flat_map(|f| f.1.clone()).collect();
+            let vchunks: Vec<Vec<u8>> = if rng.gen_bool(0.6) { vec![vbytes.clone()] } else { cut(&vbytes, &[rng.gen_range(0..=vbytes.len())]).into_iter().filter(|c| !c.is_empty()).collect() };
+            let alone = run(&env, shards, cfg, &vchunks);
+            out.impl_checks += 1;
+            // how the first connection ends
+            let ending = rng.gen_range(0..10);
+            let endings: Vec<(String, Vec<FItem>, Option<usize>)> = match ending {
+                0 => vec![("clean-eof".into(), vec![FItem::Chunk(fbytes.clone())], None)],
+                1..=4 => {
+                    // EOF in the middle of a frame: at every cut for a short stream on the small pools, else one cut
+                    let cuts: Vec<usize> = if fbytes.len() <= 90 && pool_size <= 4 && rng.gen_bool(0.6) { (1..fbytes.len()).collect() } else { vec![rng.gen_range(1..fbytes.len())] };
+                    cuts.into_iter().map(|c| (format!("eof-mid-stream@{}", c), vec![FItem::Chunk(fbytes[..c].to_vec())], None)).collect()
+                }
+                5..=7 => {
+                    let lim = if rng.gen_bool(0.5) { 0 } else { rng.gen_range(0..6) };
+                    vec![(format!("peer-closed-after-{}-reply-bytes", lim), vec![FItem::Chunk(fbytes.clone())], Some(lim))]
+                }
+                _ => {
+                    let c = rng.gen_range(1..=fbytes.len());
+                    vec![(format!("read-error-after-{}-bytes", c), vec![FItem::Chunk(fbytes[..c].to_vec()), FItem::ReadErr], None)]
+                }
+            };
+            out.count(&format!("pool:first_connection_ends:{}", endings[0].0.split('@').next().unwrap().split("-after").next().unwrap()));
+            let fillers = pool_size / 2 - 1;
+            let mut shown: Option<(Vec<u8>, Vec<usize>, bool)> = None;
+            let mut nseq = 0u64;
+            for (ename, items, wl) in &endings {
+                let mut conns = vec![ConnSpec { shards, cfg, rbs: 8192, items: items.clone(), hold_open: false, write_limit: *wl }];
+                for _ in 0..fillers {
+                    conns.push(ConnSpec { shards: 1, cfg, rbs: 8192, items: vec![FItem::Chunk(enc(&[b"PING"]))], hold_open: false, write_limit: None });
+                }
+                conns.push(ConnSpec { shards, cfg, rbs: 8192, items: vchunks.iter().map(|c| FItem::Chunk(c.clone())).collect(), hold_open: false, write_limit: None });
+                let res = run_seq(&env, pool_size, &conns);
+                nseq += 1;
+                out.impl_checks += conns.len() as u64;
+                let d = |res: &Vec<Ran>| json!({"config": [cfg.0, cfg.1], "pool_buffers": pool_size, "connections": conns.len(), "first_connection": {"stream": String::from_utf8_lossy(&fbytes), "ends": ename}, "last_connection_reads": vchunks.iter().map(|c| String::from_utf8_lossy(c).to_string()).collect::<Vec<_>>(), "last_connection_got": format!("{:?}", res.last().map(|r| match r { Ran::Ok(w, c) => format!("{:?} {:?}", String::from_utf8_lossy(w), c), o => format!("{:?}", o) })), "alone_on_a_fresh_pool": format!("{:?}", match &alone { Ran::Ok(w, c) => format!("{:?} {:?}", String::from_utf8_lossy(w), c), o => format!("{:?}", o) })});
+                if res.len() != conns.len() || res.iter().any(|r| !matches!(r, Ran::Ok(..))) {
+                    out.violation(i, "O1: a connection panicked or hung (class pool)", d(&res));
+                    shown = Some((Vec::new(), Vec::new(), true));
+                    break;
+                }
+                // fillers: exactly +PONG
+                if res[1..res.len() - 1].iter().any(|r| !matches!(r, Ran::Ok(w, _) if w == b"+PONG\r\n")) {
+                    out.violation(i, "O3: a connection that only sent PING on a shared buffer pool was not answered exactly +PONG", d(&res));
+                }
+                let last = res.last().unwrap().clone();
+                if last != alone {
+                    let what = match (&last, &alone) {
+                        (Ran::Ok(w, _), Ran::Ok(a, _)) if replies(w).map(|r| r.len()) != replies(a).map(|r| r.len()) => "O2/O3: a connection on a shared buffer pool gets a different number of replies than alone on a fresh pool (bytes left in a pooled buffer by an earlier connection)",
+                        _ => "O3: a connection on a shared buffer pool is answered differently from the same connection alone on a fresh pool",
+                    };
+                    out.violation(i, what, d(&res));
+                }
+                if let Ran::Ok(w, c) = last {
+                    if shown.is_none() {
+                        shown = Some((w, c, false));
+                    }
+                }
+                if args.only.is_some() {
+                    println!("{}", serde_json::to_string_pretty(&d(&res)).unwrap());
+                }
+            }
+            *out.dist.entry("pool:connection_sequences".into()).or_insert(0) += nseq;
+            let (w, cum, dead) = shown.unwrap_or((Vec::new(), Vec::new(), true));
+            let term = format!("(KSeg {} {} {} {} {})", cfg_term(cfg), clist(vchunks.iter(), |c| chex(c)), clist(cum.iter(), |c| c.to_string()), chex(&w), cbool(dead));
+            out.case(i, term, true, &format!("pool{:?}{}{}{}{}", cfg, shards, pool_size, hex(&fbytes), hex(&w)));
+            continue;
+        }
         if i % 40 == 11 {
             // ---- class ttl
             out.count("kind:ttl");
